@@ -131,6 +131,7 @@ func (e *Engine) execInstr(s *State, in ssa.Instruction) []*State {
 		}
 		e.assert(s, e.oblName(s, in, "nilmap-write"), "nilmap-write", in.Pos(), "assignment to entry in nil map", nmw)
 		e.containerWrite(s, m, e.val(s, x.Value), in)
+		e.checkGuardContents(s, m, in, true)
 		e.mapStore(s, mt, m.L[0], e.val(s, x.Key), e.val(s, x.Value))
 	case *ssa.Range:
 		e.execRange(s, x)
@@ -500,8 +501,7 @@ func (e *Engine) makeInterface(s *State, t types.Type, v *Val) *Val {
 			s.assume(eq(app("iref", i), "(ite "+v.L[0]+" 1 0)"))
 		}
 	}
-	e.escape(s, t, v)
-	return &Val{L: []string{i}, NN: true, Fn: v.Fn, Bind: v.Bind}
+	return &Val{L: []string{i}, NN: true, Fn: v.Fn, Bind: v.Bind, Under: v}
 }
 
 func (e *Engine) execConvert(s *State, x *ssa.Convert) *Val {
@@ -719,6 +719,7 @@ func (e *Engine) execLookup(s *State, x *ssa.Lookup) *Val {
 	m := e.val(s, x.X)
 	k := e.val(s, x.Index)
 	if mt, ok := x.X.Type().Underlying().(*types.Map); ok {
+		e.checkGuardContents(s, m, x, false)
 		v, in := e.mapLoad(s, mt, m.L[0], k)
 		if strings.Contains(e.C.Containers[m.Src], "nonnil") && len(v.L) == 1 {
 			s.assume(implies(in, not(eq(v.L[0], "0"))))
@@ -760,6 +761,7 @@ func (e *Engine) execNext(s *State, x *ssa.Next) []*State {
 	if it == nil {
 		e.unsupportedf("next without range state")
 	}
+	e.checkGuardContents(s, it.Map, x, false)
 	if it.MT == nil {
 		// range over string: abstract (ok, index, rune)
 		e.note("range over string abstracted (arbitrary number of iterations, unconstrained runes)")
